@@ -1,5 +1,6 @@
 """C13 - Loading any file terminates promptly: a fully validated object or a clean error."""
 import argparse
+import os
 import datetime as dt
 import re
 import sys
@@ -272,6 +273,56 @@ for kind_, doc_, opts_ in (("ksr", KSR9, POL9), ("skr", SKR9, None)):
             if not m:
                 continue
             judge(kind_, (doc_[:m.start()] + f"<{tag}>{val}</{tag}>" + doc_[m.end():]).encode(), f"field:{kind_}:{tag}:{val[:12]}..{len(val)}", opts_)
+# the same guarantee whatever interpreter options the tool is started with: -O / PYTHONOPTIMIZE strip assert statements
+import json as _json
+import subprocess as _sp
+OPT_SCRIPT = r"""
+import json, logging, sys
+sys.path.insert(0, sys.argv[3])
+logging.disable(logging.CRITICAL)
+import kskm.ksr.load as kload
+from kskm.common.config_misc import RequestPolicy
+seen = {"validated": False}
+orig = kload.validate_request
+def vr(req, pol):
+    r = orig(req, pol)
+    seen["validated"] = r is True
+    return r
+kload.validate_request = vr
+try:
+    obj = kload.load_ksr(sys.argv[1], RequestPolicy(**json.loads(sys.argv[2])), raise_original=True)
+    print(json.dumps({"outcome": "object", "validated": seen["validated"], "optimize": sys.flags.optimize}))
+except BaseException as e:
+    print(json.dumps({"outcome": "exception", "class": type(e).__name__, "optimize": sys.flags.optimize}))
+"""
+_bad_domain = KSR9.replace('domain="."', 'domain="example."', 1)
+_m = _re.search(r"<SignatureData>([^<]{20})", KSR9)
+_bad_sig = KSR9[:_m.start(1)] + ("A" if KSR9[_m.start(1)] != "A" else "B") + KSR9[_m.start(1) + 1:]
+_m2 = _re.search(r'keyTag="(\d+)"', KSR9)
+_bad_tag = KSR9[:_m2.start(1)] + str((int(_m2.group(1)) + 1) % 65536) + KSR9[_m2.end(1):]
+vlib.WORK.mkdir(exist_ok=True)
+for flag_name, argv, env in (("-O", ["-O"], {}), ("-OO", ["-OO"], {}), ("PYTHONOPTIMIZE=1", [], {"PYTHONOPTIMIZE": "1"})):
+    for label, doc_, must_load in (("valid", KSR9, True), ("wrong-domain", _bad_domain, False), ("tampered-signature", _bad_sig, False), ("wrong-key-tag", _bad_tag, False)):
+        path_ = str(vlib.WORK / "c13-opt.xml")
+        with open(path_, "w") as f_:
+            f_.write(doc_)
+        pr = _sp.run([sys.executable, "-B", *argv, "-c", OPT_SCRIPT, path_, _json.dumps(POL9), str(vlib.REPO / "src")], capture_output=True, text=True, timeout=120,
+                     env={**os.environ, **env, "PYTHONDONTWRITEBYTECODE": "1"})
+        loader_runs += 1
+        count("loader:optimized")
+        try:
+            out_ = _json.loads(pr.stdout.strip().splitlines()[-1])
+        except Exception:  # noqa: BLE001
+            out_ = {"outcome": "crash", "stderr": pr.stderr[-300:]}
+        bad_ = None
+        if out_["outcome"] == "object" and not out_.get("validated"):
+            bad_ = "loader returned an object that did not pass through full validation"
+        elif out_["outcome"] == "object" and not must_load:
+            bad_ = "an invalid KSR was loaded"
+        elif out_["outcome"] != "object" and must_load:
+            bad_ = f"a valid KSR was not loaded: {out_}"
+        if bad_:
+            rep.violation("impl-vs-spec", f"interpreter started with {flag_name}, {label} KSR: {bad_}", {"kind": "optimized-interpreter", "flag": flag_name, "document": label, "outcome": out_})
 # size cap: exactly 1 MiB is read, one byte more is refused before reading
 pad = lambda doc, n: (doc + " " * (n - len(doc.encode()))).encode()
 judge("ksr", pad(KSR9, 1024 * 1024), "size:exactly-1MiB", POL9, expect="object")
